@@ -289,6 +289,11 @@ func (it *indexedMessageIterator) loadChunk(chunkIndex *ChunkIndex) error {
 		if err != nil {
 			return fmt.Errorf("failed to decode chunk data: %w", err)
 		}
+		// the records are parsed up to the declared size below: it must be what was decoded
+		if uint64(len(chunkSlot.buf)) != bufSize {
+			return fmt.Errorf("chunk decompressed to %d bytes, but its header declares %d",
+				len(chunkSlot.buf), bufSize)
+		}
 	case CompressionLZ4:
 		if it.lz4Reader == nil {
 			it.lz4Reader = lz4.NewReader(bytes.NewReader(parsedChunk.Records))
